@@ -40,6 +40,10 @@ CHECKS = {
    text="macat driven in-process (stdout captured through the verif hook) against harness peers: printing in raw/ascii/quoted/msgpack/no formats for all 11 patterns is decoded by independent decoders and compared with the bytes that crossed the socket (one record per message); sending with --data/--file/--count/--interval is compared with what the peer receives (exact bytes, exact count, nothing more); Duration text parsing (bare integers = seconds, Go syntax, junk rejected); 21 kinds of conflicting/missing option combinations must be rejected with an error and no output while valid controls run.",
    note="In-process only (the macat/macat main wrapper's exit status is not exercised). --count on request/reply style sockets without an interval is left out (nanocat compatibility: sent once). Known finding: a lone '-' argument panics inside the third-party option parser.",
    technique="property-based testing (rapid) with independent decoders (round-trip / differential oracle) and generated option combinations"),
+ "C13": dict(
+   text="(A) Generated connection sequences (1-40, thorough up to 200 pipes) on the listener and dialer side of a socket built from a recording ProtocolBase wrapper around xbus/xpair/xrep, each connection with a drawn plan (close in Attaching, close in Attached, close later, peer drop, protocol refusal, leave until socket close) and traffic in between. Oracle over the event log: Attaching exactly once and first, Attached <=1, Detached exactly once iff Attached, refused/closed-in-Attaching pipes get neither and are closed, AddPipe/RemovePipe exactly once each for attached pipes (RemovePipe after AddPipe) and none accepted for the others, ids non-zero 31-bit, unique among live pipes, allocated on entry to Attaching/Detached callbacks (verif hook) and released with the socket's pipe list empty after close, and after every refusal the next connection on the same listener/dialer attaches. (B) On the 6 real transports, both sides: Pipe.Address/Dialer/Listener identity (including anonymous-port listeners), LOCAL/REMOTE-ADDR agreeing with the peer's view, IPC peer credentials = this process, TLS-STATE of a completed handshake, unknown option names rejected, also after a first connection was rejected in Attaching on either side.",
+   note="Connections are made one at a time (the harness waits for each to settle), so Close racing with attach is sampled only through the hook-side plans; the statement's 'or is being reported' race is tolerated. Known finding: tls+tcp listener-side TLS-STATE is captured before the handshake.",
+   technique="property-based testing (rapid) of generated connection/fault plans with an event-log invariant, a recording protocol wrapper, the virtual transport and the id-allocator verif hook"),
 }
 
 ALL = ["C%02d" % i for i in range(1, 21)]
